@@ -36,7 +36,7 @@ def _ident_job(k):
         D = F.dot(np.array([np.cos(a) * np.cos(b), -np.sin(b), np.sin(a) * np.cos(b)])) * mult
         S = ob["S_ref"][i].item()
         Sh = S  # S_ref of a half model counts both halves as well
-        for name, val, refv in (("L", ob["L"][i].item(), L), ("D", ob["D"][i].item(), D), ("CL1", ob["sCL"][i].item(), L / (q * Sh)), ("CDi", ob["sCDi"][i].item(), D / (q * Sh))):
+        for name, val, refv in (("L", ob["L"][i].item(), L), ("D", ob["D"][i].item(), D), ("CL", ob["sCL"][i].item(), L / (q * Sh) + s.get("CL0", 0.0)), ("CDi", ob["sCDi"][i].item(), D / (q * Sh))):
             if abs(val - refv) > 1e-9 * max(abs(refv), abs(L) * 1e-3):
                 bad.append((name, i, val, refv))
         cl += ob["sCL"][i].item() * S / stot
